@@ -236,11 +236,13 @@ def gen_history(seed, mode, thorough, hashseed):
     else:
         ds = [rng.choice(pool) for _ in range(nreq)]
     ops = []
-    # prefix: unrelated creations / churn / option calls
+    # prefix: unrelated creations / churn / option calls.  Some counts are chosen so that UFL's
+    # global counters cross 9 -> 10 or 99 -> 100 inside the request (names such as w_9 / w_10
+    # compare differently as strings and as numbers)
     for _ in range(rng.choice([0, 0, 1, 2, 4])):
         c = rng.random()
         if c < 0.6:
-            ops.append(["create", rng.choice(UNRELATED), rng.choice([1, 1, 2, 3, 7])])
+            ops.append(["create", rng.choice(UNRELATED), rng.choice([1, 1, 2, 3, 7, 8, 9, 10, 98, 99])])
         elif c < 0.8:
             ops.append(["churn", rng.choice([10, 100, 1000]), rng.choice([16, 100, 4096])])
         elif c < 0.9:
@@ -256,7 +258,7 @@ def gen_history(seed, mode, thorough, hashseed):
         gaps = []
         for _ in range(rng.choice([0, 0, 1, 2, 3])):
             gaps.append([rng.randrange(0, len(req.stmts)), rng.choice(UNRELATED),
-                         rng.choice([1, 1, 2, 5])])
+                         rng.choice([1, 1, 2, 5, 8, 9])])
         ops.append(["build", slot, d, gaps])
         pending.append((slot, d))
         # observations on some pending slot (not necessarily the newest: interleaves requests)
@@ -651,7 +653,7 @@ def minimise(scn, goldens, prop, key):
             return False
         return _fails_with(hs, sub, goldens, prop, key)
 
-    ops = _valid_ops(core.ddmin(ops, test, max_tests=40))
+    ops = _valid_ops(core.ddmin(ops, test, max_tests=150))
     # drop gaps inside builds
     for i, op in enumerate(ops):
         if op[0] == "build" and op[3]:
